@@ -25,6 +25,7 @@ type Model struct {
 	First   uint64
 	certs   [][]byte
 	tables  []gpbft.PowerEntries // tables[k] validates First+k; len = len(certs)+1
+	tbytes  [][]byte             // CBOR of tables[k] (cache)
 }
 
 // PutOutcome is what the model says about a Put.
@@ -53,7 +54,8 @@ func (m *Model) Create(first uint64, initial gpbft.PowerEntries) error {
 	if len(initial) == 0 {
 		return errors.New("model: empty initial table")
 	}
-	*m = Model{Created: true, First: first, tables: []gpbft.PowerEntries{CloneTable(initial)}}
+	t := CloneTable(initial)
+	*m = Model{Created: true, First: first, tables: []gpbft.PowerEntries{t}, tbytes: [][]byte{TableBytes(t)}}
 	return nil
 }
 
@@ -63,7 +65,8 @@ func (m *Model) Wipe() { *m = Model{} }
 // Clone returns an independent copy.
 func (m *Model) Clone() *Model {
 	return &Model{Created: m.Created, First: m.First,
-		certs: append([][]byte(nil), m.certs...), tables: append([]gpbft.PowerEntries(nil), m.tables...)}
+		certs: append([][]byte(nil), m.certs...), tables: append([]gpbft.PowerEntries(nil), m.tables...),
+		tbytes: append([][]byte(nil), m.tbytes...)}
 }
 
 // Len is the number of stored certificates.
@@ -160,6 +163,7 @@ func (m *Model) Put(cert *certs.FinalityCertificate) (PutOutcome, string) {
 	if out == PutAccept {
 		m.certs = append(m.certs, CertBytes(cert))
 		m.tables = append(m.tables, next)
+		m.tbytes = append(m.tbytes, TableBytes(next))
 	}
 	return out, why
 }
@@ -203,7 +207,7 @@ func (m *Model) ObserveAt(tableInstances []uint64) *Observation {
 	}
 	if tableInstances == nil {
 		for i := m.First; ; i++ {
-			o.Tables[i] = TableBytes(m.Table(i))
+			o.Tables[i] = m.tbytes[i-m.First]
 			if i == m.Next() {
 				break
 			}
@@ -211,11 +215,19 @@ func (m *Model) ObserveAt(tableInstances []uint64) *Observation {
 	} else {
 		for _, i := range tableInstances {
 			if t := m.Table(i); t != nil {
-				o.Tables[i] = TableBytes(t)
+				o.Tables[i] = m.tbytes[i-m.First]
 			}
 		}
 	}
 	return o
+}
+
+// TableBytes returns the CBOR bytes of Table(instance), or nil.
+func (m *Model) TableBytes(instance uint64) []byte {
+	if m.Table(instance) == nil {
+		return nil
+	}
+	return m.tbytes[instance-m.First]
 }
 
 // EqualCert reports whether the model's certificate at instance equals b.
